@@ -339,6 +339,8 @@ def judge(case, ob, ans):
     elif op == 'format_roundtrip':
         rend, col = dict(ob['rendered']), FMT_COL[pa['fmt']]
         rr = ob['reread']
+        if rr['status'] != 'ok' and rr['error'] and (rr['error'][0] == 'Timeout' or 'wall-clock guard' in str(rr['error'])):
+            return out   # the wall-clock guard fired while reading back (machine load), not an engine answer
         back = by_me(rr['rows']) if rr['status'] == 'ok' else {}
         for i, (_, p) in enumerate(series):
             s, exp_s = rend.get(float(i)), ans['R %s %d %d' % p].split()[col]
